@@ -37,10 +37,10 @@ type c02Ext struct {
 }
 
 type c02Case struct {
-	Name       string   `json:"name"`        // registered user name as typed by the user
-	Typed      string   `json:"typed"`       // how it is typed at login (case variant)
-	Login      string   `json:"login"`       // basic | form-cookie
-	Target     string   `json:"target"`      // own typed other prefix suffix
+	Name       string   `json:"name"`   // registered user name as typed by the user
+	Typed      string   `json:"typed"`  // how it is typed at login (case variant)
+	Login      string   `json:"login"`  // basic | form-cookie
+	Target     string   `json:"target"` // own typed other prefix suffix
 	KeyKind    string   `json:"key_kind"`
 	CertType   string   `json:"cert_type"`
 	AddGroups  bool     `json:"add_groups"`
